@@ -43,6 +43,16 @@ pub fn dispatch(id: &str, a: &[Arg]) -> Option<String> {
     if id.starts_with("IterStatistics::") {
         return stat(id, a);
     }
+    use statrs::generate::*;
+    let take = |it: &mut dyn Iterator<Item = f64>, n: i128| -> Vec<f64> { it.take(n.max(0) as usize).collect() };
+    match id {
+        "gen::periodic" => return Some(rep(&take(&mut InfinitePeriodic::new(a[0].f(), a[1].f(), a[2].f(), a[3].f(), a[4].i() as i64), a[5].i()))),
+        "gen::sinusoidal" => return Some(rep(&take(&mut InfiniteSinusoidal::new(a[0].f(), a[1].f(), a[2].f(), a[3].f(), a[4].f(), a[5].i() as i64), a[6].i()))),
+        "gen::square" => return Some(rep(&take(&mut InfiniteSquare::new(a[0].i() as i64, a[1].i() as i64, a[2].f(), a[3].f(), a[4].i() as i64), a[5].i()))),
+        "gen::triangle" => return Some(rep(&take(&mut InfiniteTriangle::new(a[0].i() as i64, a[1].i() as i64, a[2].f(), a[3].f(), a[4].i() as i64), a[5].i()))),
+        "gen::sawtooth" => return Some(rep(&take(&mut InfiniteSawtooth::new(a[0].i() as i64, a[1].f(), a[2].f(), a[3].i() as i64), a[4].i()))),
+        _ => {}
+    }
     match id {
         "Data::min" => Some(rep(&Data::new(a[0].fl()).min())),
         "Data::max" => Some(rep(&Data::new(a[0].fl()).max())),
@@ -116,6 +126,24 @@ pub fn gen(suite: &str, tier: &str, seed: u64) {
                 }
                 emit("IterStatistics::covariance", &[Arg::FL(v.clone()), Arg::FL(w.clone())]);
                 emit("IterStatistics::population_covariance", &[Arg::FL(v.clone()), Arg::FL(w)]);
+            }
+        }
+        "generators" => {
+            let n_cases = if thorough { 400 } else { 60 };
+            let n_out: i128 = if thorough { 3000 } else { 1200 };
+            for _ in 0..n_cases {
+                let sr = *r.pick(&[1.0, 10.0, 44100.0, 8.0, 1000.0]);
+                let fr = *r.pick(&[1.0, 0.5, 440.0, 2.0, 3.3]);
+                let amp = *r.pick(&[1.0, 2.0, 10.0, 0.5]);
+                let ph = r.range(0.0, 3.0);
+                let d = r.below(9) as i128 - 4;
+                emit("gen::periodic", &[Arg::F(sr), Arg::F(fr), Arg::F(amp), Arg::F(ph), Arg::I(d), Arg::I(n_out)]);
+                emit("gen::sinusoidal", &[Arg::F(sr), Arg::F(fr), Arg::F(amp), Arg::F(r.range(-1.0, 1.0)), Arg::F(ph), Arg::I(d), Arg::I(n_out)]);
+                let hd = 1 + r.below(6) as i128;
+                let ld = 1 + r.below(6) as i128;
+                emit("gen::square", &[Arg::I(hd), Arg::I(ld), Arg::F(r.range(0.5, 3.0)), Arg::F(r.range(-3.0, 0.5)), Arg::I(d), Arg::I(n_out / 4)]);
+                emit("gen::triangle", &[Arg::I(hd), Arg::I(ld), Arg::F(r.range(0.5, 3.0)), Arg::F(r.range(-3.0, 0.5)), Arg::I(d), Arg::I(n_out / 4)]);
+                emit("gen::sawtooth", &[Arg::I(2 + r.below(8) as i128), Arg::F(r.range(0.5, 3.0)), Arg::F(r.range(-3.0, 0.5)), Arg::I(d), Arg::I(n_out / 4)]);
             }
         }
         "inv_beta_reg" => {
